@@ -206,9 +206,12 @@ def run_case(case):
         shape = tuple(shape)
         brush = fdtdx.circular_brush(cfg["d"], cfg["brush_size"]) if cfg["brush_size"] else fdtdx.circular_brush(cfg["d"])
         K = np.asarray(brush, bool)
-        if K.shape[0] % 2 != 1 or not np.array_equal(K, K[::-1, ::-1]) or not K.any():
+        if K.shape[0] % 2 != 1 or K.shape[1] % 2 != 1 or not K.any():
             r.inconclusive(f"unexpected brush array for diameter {cfg['d']}: shape {K.shape}")
             continue
+        if not np.array_equal(K, K[::-1, ::-1]):
+            # the footprint is whatever array the library built; the definitional opening below does not need symmetry
+            r.branch("brush_not_point_symmetric")
         bg_idx = 1 if cfg["bg_high"] else 0
         t = fdtdx.BrushConstraint2D(brush=brush, axis=cfg["axis"], background_material="hi" if cfg["bg_high"] else None)
         t = t.init_module(
